@@ -836,8 +836,27 @@ func c10ScratchReset(c *Ctx, rule string) {
 	if !c.Anchor(rule, "the scratch buffer field of zapcore.jsonEncoder", scratch != "") {
 		return
 	}
+	// the reflection encoder bound to that buffer: the field of an interface type with an Encode method
+	reflEnc := ""
+	if st, ok := jn.Underlying().(*types.Struct); ok {
+		for i := 0; i < st.NumFields(); i++ {
+			if it, isI := types.Unalias(st.Field(i).Type()).Underlying().(*types.Interface); isI {
+				for k := 0; k < it.NumMethods(); k++ {
+					if it.Method(k).Name() == "Encode" {
+						reflEnc = st.Field(i).Name()
+					}
+				}
+			}
+		}
+	}
 	isScratch := func(st *ConcState, v ssa.Value) bool {
 		for k := 0; k < 12; k++ {
+			switch y := v.(type) {
+			case *ssa.MakeInterface:
+				v = y.X
+			case *ssa.ChangeInterface:
+				v = y.X
+			}
 			if ld, ok := v.(*ssa.UnOp); ok && ld.Op == token.MUL {
 				if fa, isFA := ld.X.(*ssa.FieldAddr); isFA && fieldName(fa.X.Type(), fa.Field) == scratch {
 					return true
@@ -872,7 +891,7 @@ func c10ScratchReset(c *Ctx, rule string) {
 					v := x.Val
 					for k := 0; k < 8; k++ {
 						if freshBuffer(v, 0) {
-							return "empty"
+							return "new-buffer"
 						}
 						nx := st.Step(v)
 						if nx == nil {
@@ -881,6 +900,26 @@ func c10ScratchReset(c *Ctx, rule string) {
 						v = nx
 					}
 					return "replaced"
+				}
+				if fa, ok := x.Addr.(*ssa.FieldAddr); ok && reflEnc != "" && fieldName(fa.X.Type(), fa.Field) == reflEnc {
+					// the reflection encoder is (re)built: over the scratch buffer as it is now?
+					v := x.Val
+					for k := 0; k < 8; k++ {
+						if cl, isC := v.(*ssa.Call); isC {
+							for _, a := range cl.Call.Args {
+								if isScratch(st, a) {
+									return "rebind"
+								}
+							}
+							break
+						}
+						nx := st.Step(v)
+						if nx == nil {
+							break
+						}
+						v = nx
+					}
+					return "rebind-elsewhere"
 				}
 			}
 			return ""
@@ -895,10 +934,13 @@ func c10ScratchReset(c *Ctx, rule string) {
 				continue
 			}
 			nEnc++
-			if i == 0 || toks[i-1] != "empty" {
+			// immediately before: the buffer emptied, or a new buffer taken and the encoder built over THAT buffer (an
+			// encoder left bound to the buffer that was given back writes into somebody else's buffer)
+			ok := i >= 1 && toks[i-1] == "empty" || i >= 2 && toks[i-2] == "new-buffer" && toks[i-1] == "rebind"
+			if !ok {
 				bad = append(bad, sq)
 			}
 		}
 	}
-	c.Check(!trunc && nEnc > 0 && len(bad) == 0, rule, er.String(), "scratch-emptied-before-encode", er.Pos(), "on every one of the %d paths the scratch buffer %s is Reset or freshly taken from the pool immediately before the value is encoded into it (offending: %v)", len(seqs), scratch, bad)
+	c.Check(!trunc && nEnc > 0 && len(bad) == 0, rule, er.String(), "scratch-emptied-before-encode", er.Pos(), "on every one of the %d paths the scratch buffer %s is Reset - or freshly taken from the pool and the reflection encoder rebuilt over it - immediately before the value is encoded into it (offending: %v)", len(seqs), scratch, bad)
 }
